@@ -125,6 +125,7 @@ def check(run):
     C06.ob_s2n_events(run, "O1.7c")
     C06.ob_parent_certified(run, "O1.7d")
     C06.ob_registry(run, "O1.7e")
+    C06.ob_sorted_vec(run, "O1.7f")
     # "all finalized blocks lie on one chain": which parents may be built on (parent-ready), and how finality propagates to ancestors
     C07.check(run, prefix="O1.8")
     C08.ob_no_downgrade(run, "O1.9a")
